@@ -1,7 +1,8 @@
 From Coq Require Import Extraction ExtrOcamlBasic.
-From Elk Require Import Base.GoSem Model.C07_Strict Model.C07_Float.
+From Elk Require Import Base.GoSem Model.C07_Strict Model.C07_Float Model.C07_FloatPow.
 Extraction Language OCaml.
 Separate Extraction bin_impl un_impl shift_impl same_left same_right fits kind_fits admitted
   f64_op_bits f32_op_bits f64_cmp_bits f32_cmp_bits rel_of f64_nan_bits f32_nan_bits
   f64_of_int_bits f32_of_int_bits f32_of_f64_bits f64_of_f32_bits f64_trunc_bits
+  f64_pow_special_bits f32_pow_special_bits f64_mod_bits f32_mod_bits
   Z.of_nat Z.to_nat Z.add Z.mul Z.opp Z.sub Z.compare Z.eqb Z.ltb Z.leb Pos.to_nat.
